@@ -112,6 +112,7 @@ def main():
             ok, text = core.build_driver(x)
             if not ok:
                 ctx.broken_obligation(f"driver:{x}", text)
+    ctx.notes.append(f"build phase: {round(__import__('time').time() - ctx.t0, 1)} s")
     # 5. the property's own exploration against the real code
     try:
         core.assert_repo_import()
